@@ -136,7 +136,8 @@ theorem write_sim_noalloc {σ : Type} (A : Cursor.Allocator σ) (s : σ) (f : Fi
       (∀ q, d'.img.getByte q ≠ d.img.getByte q → q = statusOff d.fs ∨
         ∃ cur, (absFile d.fs d.img f).readCluster = some cur ∧
           clusterOff d.fs cur + f.offset % d.fs.clusterSize ≤ q ∧
-          q < clusterOff d.fs cur + f.offset % d.fs.clusterSize + k) := by
+          q < clusterOff d.fs cur + f.offset % d.fs.clusterSize + k) ∧
+      (∀ E D : Nat → Prop, (∀ x ∈ fileChain d.fs d.img f, D x) → Trace d.fs E D d d') := by
   obtain ⟨sz, hsz⟩ := hrep.file
   have hinv := hrep.inv
   have hasz : (absFile d.fs d.img f).size = sz := by simp [absFile, hsz]
@@ -153,7 +154,8 @@ theorem write_sim_noalloc {σ : Type} (A : Cursor.Allocator σ) (s : σ) (f : Fi
       (4294967295 - f.offset) = 0 then _ else _) d = _ ∧ _
   by_cases hw0 : min (min buf.length (d.fs.clusterSize - f.offset % d.fs.clusterSize)) (4294967295 - f.offset) = 0
   · rw [if_pos hw0, if_pos hw0]
-    exact ⟨0, f, d, rfl, DevStep.refl d, rfl, rfl, CoreEq.refl _, hrep, rfl, rfl, fun q h => absurd rfl h⟩
+    exact ⟨0, f, d, rfl, DevStep.refl d, rfl, rfl, CoreEq.refl _, hrep, rfl, rfl, fun q h => absurd rfl h,
+      fun E D _ => Trace.refl _ E D d⟩
   · rw [if_neg hw0, if_neg hw0]
     generalize hww : min (min buf.length (d.fs.clusterSize - f.offset % d.fs.clusterSize)) (4294967295 - f.offset) = w
       at hw0
@@ -322,7 +324,20 @@ theorem write_sim_noalloc {σ : Type} (A : Cursor.Allocator σ) (s : σ) (f : Fi
       · intro c hc; rw [hch', htv']; exact hrep.chain c (hf1 ▸ hc)
       · intro c hc; rw [hfs', hs1.geom.totalClusters]; exact hrep.inTab c (hch' ▸ hc)
       · intro c hc; rw [htv']; exact hrep.last_eoc c (hch' ▸ hc)
-    refine ⟨w, f', d', rfl, hstep, rfl, trivial, hcore, hrep', htv', by rw [hfs', hinfo1], ?_⟩
+    have htrace : ∀ E D : Nat → Prop, (∀ x ∈ fileChain d.fs d.img f, D x) → Trace d.fs E D d d' := by
+      intro E D hD
+      have ht1 : Trace d.fs E D d d1 := setDirtyFlag_trace d d1 hr1 hfa (by
+        have := hg.status_lt; have := hg.fat_dev; omega) E D
+      have hlog' : d'.log = .write (clusterOff d.fs cur + f.offset % d.fs.clusterSize) (buf.take w) :: d2.log := by
+        rw [← hd', didWrite_log _ _ hfit]
+        rfl
+      have himg2 : d'.img = d2.img.write (clusterOff d.fs cur + f.offset % d.fs.clusterSize) (buf.take w) := by
+        rw [himg', hs2.img]
+      refine ht1.trans ((Trace.of_sameStore hs2).trans (Trace.single hlog' himg2
+        (Or.inr (Or.inl ⟨cur, hD cur hmem, hc2, hct, Nat.le_add_right _ _, ?_⟩))))
+      show clusterOff d.fs cur + f.offset % d.fs.clusterSize + (buf.take w).length ≤ _
+      rw [hlen]; omega
+    refine ⟨w, f', d', rfl, hstep, rfl, trivial, hcore, hrep', htv', by rw [hfs', hinfo1], ?_, htrace⟩
     intro q hne
     by_cases hsq : q = statusOff d.fs
     · exact Or.inl hsq
